@@ -11,6 +11,11 @@ package main
 // backend error, client cancel, body too large, panic).  After every driver step all request
 // goroutines are blocked and the driver snapshots Conns / Fails / Down() / Full() of every
 // host together with the number of requests really inside that host's transport.
+//
+// A request released from the "post" gate runs host.acquireConn(): it arrives in the transport
+// ("rt") when the host is below max_conns at that instant, otherwise it takes the no-host path
+// (back at "pre" when keepRetrying says again, else done with 502).  Any state in which more
+// than max_conns requests are inside one transport gets the signature c14SigOvershoot (F-C14-1).
 
 import (
 	"context"
